@@ -11,6 +11,7 @@ import FendModel.Model.IntFns
 import FendModel.Model.SerializeCanon
 import FendModel.Model.Preview
 import FendModel.Model.XRates
+import FendModel.Model.Cli
 
 open Fend Fend.Proto
 
@@ -292,6 +293,44 @@ def xratesLine (line : String) : String :=
     | _, _, _, _ => "bad-op"
   | _ => "bad-op"
 
+def strOfPacked (h : String) : Option String :=
+  (parsePackedHex h).bind fun bs => String.fromUTF8? (ByteArray.mk (bs.map (·.toUInt8)).toArray)
+
+def packedOfStr (s : String) : String := packedHex (s.toUTF8.toList.map (·.toNat))
+
+/-- `<arg>,<arg>,...;<path>=<contents>,...` (all packed hex of UTF-8; an empty field is the empty string) -/
+def cliargsLine (line : String) : String :=
+  match line.trimAscii.toString.splitOn ";" with
+  | [argsPart, filesPart] =>
+    let args := if argsPart.isEmpty then [] else (argsPart.splitOn ",").filterMap (fun a => if a = "_" then some "" else strOfPacked a)
+    let files : List (String × String) := if filesPart.isEmpty then [] else
+      (filesPart.splitOn ",").filterMap fun kv => match kv.splitOn "=" with
+        | [k, v] => match strOfPacked k, (if v = "_" then some "" else strOfPacked v) with
+          | some k, some v => some (k, v) | _, _ => none
+        | _ => none
+    let rf := fun (p : String) => (files.find? (·.1 = p)).map (·.2)
+    match Fend.Cli.fromArgs args rf with
+    | .error .expectedFilename => "err expectedFilename"
+    | .error .expectedExpression => "err expectedExpression"
+    | .error (.unreadable _) => "err unreadable"
+    | .ok .help => "help" | .ok .version => "version" | .ok .repl => "repl" | .ok .defaultConfig => "defaultConfig"
+    | .ok (.eval es) => "eval " ++ ",".intercalate (es.map fun e => if e.isEmpty then "_" else packedOfStr e)
+  | _ => "bad-op"
+
+/-- `O:<emptyOrUnit>:<newline>:<text>` or `X:<msg>` per expression, comma separated -/
+def clirunLine (line : String) : String :=
+  let items := (line.trimAscii.toString.splitOn ",").filter (!·.isEmpty)
+  let parse (it : String) : Fend.Cli.CoreRes := match it.splitOn ":" with
+    | ["O", u, n, t] => .ok ((if t = "_" then some "" else strOfPacked t).getD "?") (u == "1") (n == "1")
+    | ["X", m] => .err ((if m = "_" then some "" else strOfPacked m).getD "?")
+    | _ => .err "bad"
+  let rs := items.map parse
+  -- σ = the results still to be handed out
+  let coreEval := fun (st : List Fend.Cli.CoreRes) (_ : String) => match st with
+    | r :: rest => (rest, r) | [] => ([], Fend.Cli.CoreRes.err "exhausted")
+  let out := Fend.Cli.evalExprs coreEval rs (rs.map fun _ => "e") {}
+  s!"status {out.status} out {packedOfStr out.stdout} err {packedOfStr out.stderr}"
+
 partial def loop (h : IO.FS.Stream) (out : IO.FS.Stream) (f : String → String) : IO Unit := do
   let line ← h.getLine
   if line.isEmpty then return ()
@@ -313,4 +352,6 @@ def main (args : List String) : IO UInt32 := do
   | ["serde"] => loop stdin stdout serdeLine; return 0
   | ["preview"] => loop stdin stdout previewLine; return 0
   | ["xrates"] => loop stdin stdout xratesLine; return 0
+  | ["cliargs"] => loop stdin stdout cliargsLine; return 0
+  | ["clirun"] => loop stdin stdout clirunLine; return 0
   | _ => IO.eprintln "usage: fend_model_driver <stream>"; return 2
